@@ -42,6 +42,10 @@ def param_types(tu, fname):
 def run(ck):
     us = [u for u in unitdb.units() if u.group != 'cli']
     cli = [u for u in unitdb.units() if u.group == 'cli']
+    if ck.tier == 'thorough' and ck.pid == 'C14':
+        # the same facts for the code that only exists under a build option: all three make options on, and -DEAV_EXTRA
+        allon = {'RFC6531_FOLLOW_RFC5322': 'ON', 'RFC6531_FOLLOW_RFC20': 'ON', 'LABELS_ALLOW_UNDERSCORE': 'ON'}
+        us = us + [u for u in unitdb.units(allon, 'alloptions') if u.group != 'cli'] + [u for u in unitdb.units(None, 'EAV_EXTRA', ('-DEAV_EXTRA',)) if u.group != 'cli']
     irs = unitdb.parallel(unitdb.dump_ir, us + cli)
     tus = unitdb.load_asts(us)
     mods = {u.key: irfacts.Module(p) for u, p in zip(us + cli, irs)}
